@@ -369,6 +369,9 @@ pub enum ChildSpec {
 	/// A node of a live tree, selected (monotone index mapping) at interpretation time:
 	/// (tree selector, node selector). Falls back to a new leaf when no tree is live.
 	Existing(u16, u16),
+	/// A specific node of the model arena (used by the ref-count growth scenarios, which
+	/// need nodes whose addresses fall into one chunk of the reference-count table).
+	ExistingNode(u32),
 }
 
 #[derive(Clone, Debug, Serialize, Deserialize, PartialEq, Eq, Hash)]
